@@ -97,10 +97,18 @@ def run(rep, tier):
         return
     # ---------------- interpreter
     ri = rep.rule("R08.i", "interpreter: helpers[imm as u32](r1..r5) -> r0, once; unknown id -> Err; r6-r10 untouched", floor=1)
-    paths = [p for p in im.summary(CALL) if any(c == T.cmp("eq", 64, T.zext(64, ("v", "src", 8)), T.K(64, 0)) for c in p["conds"])]
+    # every interpreter path a helper call (src == 0) can take: the ones not excluded by the call kind
+    from props.c05 import incompatible
+    src0 = [T.cmp("eq", 8, ("v", "src", 8), T.K(8, 0))]
+    paths = [p for p in im.summary(CALL) if not incompatible(list(p["conds"]), src0)]
     called = [p for p in paths if p["calls"]]
     missing = [p for p in paths if not p["calls"]]
     ok = len(called) == 1 and len(missing) == 1
+    if ok:
+        # the helper runs whenever it is registered: no condition other than the call kind and the lookup
+        extra = [c for c in called[0]["conds"] if c != T.cmp("eq", 64, T.zext(64, ("v", "src", 8)), T.K(64, 0)) and "is_Some" not in repr(c)[:40]]
+        extra_m = [c for c in missing[0]["conds"] if c != T.cmp("eq", 64, T.zext(64, ("v", "src", 8)), T.K(64, 0)) and "is_Some" not in repr(c)[:60]]
+        ok = not extra and not extra_m
     found = {}
     if ok:
         p = called[0]
